@@ -11,11 +11,13 @@ HEAD = '''/-
   statement w2c2 emits (dispatch table and macros regenerated from the current c.c / w2c2_base.h),
   evaluated by the UB-tracking C semantics `CSem` on ARBITRARY operand values, is never undefined:
   no signed overflow, no shift by >= width, no division overflow, no out-of-range float-to-int
-  conversion, no use of a builtin outside its domain.  (Corollaries of C01Ops / C02Ops, which show
-  each evaluation to be a value or the specified trap.)
+  conversion, no use of a builtin outside its domain.  (Corollaries of C01Ops / C02Ops / C02TruncOps, which
+  show each evaluation to be a value or the specified trap; for the 16 float-to-int truncations this rests on
+  the exactness of the range guards, Props/C02Guards.)
 -/
 import W2c2Verif.Props.C01Ops
 import W2c2Verif.Props.C02Ops
+import W2c2Verif.Props.C02TruncOps
 
 namespace W2c2Verif.Props.C11
 open W2c2Verif
@@ -32,7 +34,10 @@ def main():
             thm, binders, lhs = m.group(1), m.group(2), m.group(3).replace("macroDefs", "C01.macroDefs")
             rhs = m.group(4)
             if not (rhs.startswith(".val") or ".map' " in rhs):
-                pending.append(thm[3:])      # result stated as a macro call (float-to-int truncations): needs trunc_guard_exact
+                # float-to-int truncations: full-strength theorem and no-UB corollary are in Props/C02TruncOps (via C02Guards)
+                names.append(thm)
+                args = " ".join(b.split(":")[0].strip(" (") for b in binders.split(")") if ":" in b)
+                out.append(f"theorem no_ub_{thm[3:]}{binders} (k : UBKind) :\n    {lhs} ≠ .ub k := C02.no_ub_{thm[3:]} {args} k\n")
                 continue
             names.append(thm)
             out.append(f"theorem no_ub_{thm[3:]}{binders} (k : UBKind) :\n    {lhs} ≠ .ub k := by\n"
@@ -40,7 +45,7 @@ def main():
                        f"  first\n  | (intro h; cases h; done)\n"
                        f"  | (simp only [Spec.idiv_s, Spec.idiv_u, Spec.irem_s, Spec.irem_u]; repeat' split\n     all_goals (intro h; cases h))\n")
     out.append(f"/-- number of opcodes covered -/\ndef coveredOpcodes : Nat := {len(names)}\n")
-    out.append("/-- float-to-int truncations: the cast is guarded by the TRUNC macros; that the guard excludes every\n    out-of-range operand (`trunc_guard_exact`) is not yet proved (tied by boundary-neighbour runs under UBSan) -/\ndef pendingOpcodes : List String := [" + ", ".join('"%s"' % n for n in pending) + "]\n")
+    out.append("/-- opcodes without a no-UB theorem (none) -/\ndef pendingOpcodes : List String := [" + ", ".join('"%s"' % n for n in pending) + "]\n")
     out.append("end W2c2Verif.Props.C11\n")
     open(os.path.join(PROPS, "C11Ops.lean"), "w").write("\n".join(out))
     print(len(names), "corollaries")
